@@ -61,11 +61,13 @@ Proof.
   apply IH. cbn [bufs]. cbn in Hl. lia.
 Qed.
 
-Lemma finish_pass n vb r s' : finish n vb r = (Pass, s') -> r = (Pass, s') /\ validity_ok n vb = true.
+Lemma finish_gen_pass ok r s' : finish_gen ok r = (Pass, s') -> r = (Pass, s') /\ ok = true.
 Proof.
-  unfold finish. destruct r as [e s]. destruct e; try discriminate.
-  destruct (validity_ok n vb); [|discriminate]. intros H; inversion H; subst. split; reflexivity.
+  unfold finish_gen. destruct r as [e s]. destruct e; try discriminate.
+  destruct ok; [|discriminate]. intros H; inversion H; subst. split; reflexivity.
 Qed.
+Lemma finish_pass n vb r s' : finish n vb r = (Pass, s') -> r = (Pass, s') /\ validity_ok n vb = true.
+Proof. apply finish_gen_pass. Qed.
 
 (* a successful walk of one field consumed exactly the nodes and buffers its type prescribes, every buffer in bounds *)
 Definition walk_ok (t : fty) : Prop := forall body s s', walk t body s = (Pass, s') ->
@@ -145,7 +147,7 @@ Proof.
         + rewrite app_length. cbn. lia.
         + rewrite app_length. cbn. lia.
         + apply in_bounds_app; assumption. }
-    intros H. apply finish_pass in H. destruct H as [H _]. apply G in H. destruct H as [un [ub [H1 [H2 [H3 [H4 H5]]]]]].
+    intros H. apply finish_gen_pass in H. destruct H as [H _]. apply G in H. destruct H as [un [ub [H1 [H2 [H3 [H4 H5]]]]]].
     exists (n :: un), (used ++ ub). repeat split.
     + cbn. rewrite <- H1, Hn. reflexivity.
     + rewrite Hu, H2, app_assoc. reflexivity.
@@ -171,7 +173,7 @@ Lemma walk_prim_validity body n vb b2 s' :
   as_usize (fst n) <= 8 * as_usize (snd vb).
 Proof.
   cbn [walk next_node nodes bufs]. intros H Hn. apply finish_pass in H. destruct H as [_ H].
-  unfold validity_ok, first_buf in H. cbn [bufs] in H. apply Z.ltb_lt in Hn. rewrite Hn in H.
+  unfold validity_ok, validity_ok_gen, first_buf in H. cbn [bufs] in H. apply Z.ltb_lt in Hn. rewrite Hn in H.
   apply Z.leb_le in H. lia.
 Qed.
 
